@@ -42,6 +42,10 @@ func GenSource(r *vh.Rand) []byte {
 	if r.Chance(15) {
 		b.WriteString("// doc\nfunc helper(a int, b ...string) (r int, err error) {\n\treturn " + g.expr(2) + ", nil\n}\n\n")
 	}
+	for i, nd := 0, r.Intn(4); i < nd; i++ {
+		b.WriteString(g.decl())
+		b.WriteString("\n\n")
+	}
 	n := 1 + r.Intn(6)
 	for i := 0; i < n; i++ {
 		b.WriteString(g.stmt(2, ""))
@@ -96,7 +100,7 @@ func (g *srcGen) expr(depth int) string {
 		return g.atom()
 	}
 	s := g.sp
-	switch g.r.Intn(30) {
+	switch g.r.Intn(40) {
 	case 0, 1:
 		return g.atom()
 	case 2:
@@ -152,7 +156,27 @@ func (g *srcGen) expr(depth int) string {
 	case 27:
 		return "[]int{" + g.list(depth, 0, 3) + "}"
 	case 28:
-		return g.id() + ".(" + "int" + ")"
+		return g.id() + ".(" + g.typ(1) + ")"
+	case 29:
+		return "make(" + g.chanType(1+g.r.Intn(3)) + ")"
+	case 30:
+		return "(" + g.chanType(1+g.r.Intn(3)) + ")(nil)"
+	case 31:
+		return "new(" + g.typ(2) + ")"
+	case 32: // slice expressions with every combination of bounds
+		return g.id() + []string{"[:]", "[1:]", "[:2]", "[1:2]", "[1:2:3]", "[:2:3]"}[g.r.Intn(6)]
+	case 33:
+		return g.typ(2) + "{" + g.list(depth, 0, 2) + "}"
+	case 34:
+		return "[...]int{" + g.list(depth, 1, 3) + "}"
+	case 35:
+		return "&" + g.id() + "{" + g.id() + ":" + s() + g.expr(depth-1) + "}"
+	case 36:
+		return g.id() + "(" + g.list(depth, 1, 2) + "...)"
+	case 37:
+		return "func(" + g.id() + " " + g.typ(1) + ", " + g.id() + " ..." + g.typ(1) + ") (" + g.typ(1) + ", error) {\n\treturn " + g.expr(depth-1) + ", nil\n}"
+	case 38:
+		return g.id() + "[" + g.typ(1) + ", " + g.typ(1) + "](" + g.expr(depth-1) + ")"
 	}
 	return "map[string]int{\"a\": " + g.expr(depth-1) + "}"
 }
@@ -192,7 +216,7 @@ func (g *srcGen) stmt(depth int, ind string) string {
 	if depth <= 0 {
 		return ind + g.id() + " = " + g.expr(1)
 	}
-	switch g.r.Intn(22) {
+	switch g.r.Intn(40) {
 	case 0, 1, 2:
 		return ind + g.id() + s() + ":=" + s() + g.expr(depth)
 	case 3:
@@ -233,7 +257,134 @@ func (g *srcGen) stmt(depth int, ind string) string {
 	case 19:
 		return ind + g.id() + ", " + g.id() + " = " + g.expr(depth-1) + ", " + g.expr(depth-1)
 	case 20:
-		return ind + g.expr(depth)
+		if e := g.expr(depth); !strings.HasPrefix(e, "func") && !strings.HasPrefix(e, "{") {
+			return ind + e
+		}
+		return ind + g.id() + "()"
+	case 21: // variadic command-style calls
+		return ind + []string{"println", "echo", "foo.bar"}[g.r.Intn(3)] + s() + g.list(depth, 0, 2) + func() string {
+			if g.r.Bool() {
+				return ", " + g.id() + "..."
+			}
+			return g.id() + "..."
+		}()
+	case 22:
+		return ind + "var " + g.id() + s() + g.chanType(1+g.r.Intn(3))
+	case 23:
+		return ind + "var " + g.id() + ", " + g.id() + " " + g.typ(2) + " = " + g.expr(depth-1) + ", " + g.expr(depth-1)
+	case 24:
+		return ind + "const " + g.id() + " = " + g.atom()
+	case 25:
+		return ind + "type " + g.id() + s() + g.typ(2)
+	case 26:
+		return ind + "L:\n" + ind + "for {\n" + ind + "\tbreak L\n" + ind + "}"
+	case 27:
+		return ind + "for " + g.expr(depth-1) + " " + g.block(depth, ind)
+	case 28:
+		return ind + "for ; ; i++ " + g.block(depth, ind)
+	case 29:
+		return ind + []string{"for range ", "for k := range ", "for k, v := range ", "for k, v = range ", "for _, v := range "}[g.r.Intn(5)] + g.id() + " " + g.block(depth, ind)
+	case 30:
+		return ind + "if v := " + g.expr(depth-1) + "; v " + g.block(depth, ind) + " else if " + g.id() + " " + g.block(depth, ind) + " else " + g.block(depth, ind)
+	case 31:
+		return ind + "switch x := " + g.id() + "; {\n" + ind + "case x:\n" + ind + "\tfallthrough\n" + ind + "default:\n" + g.stmt(depth-1, ind+"\t") + "\n" + ind + "}"
+	case 32:
+		return ind + "switch " + []string{"t := ", ""}[g.r.Intn(2)] + g.id() + ".(type) {\n" + ind + "case int, " + g.typ(1) + ":\n" + ind + "case nil:\n" + g.stmt(depth-1, ind+"\t") + "\n" + ind + "}"
+	case 33:
+		return ind + "select {\n" + ind + "case v := <-ch:\n" + g.stmt(depth-1, ind+"\t") + "\n" + ind + "case ch <- " + g.atom() + ":\n" + ind + "case <-" + g.id() + ":\n" + ind + "default:\n" + ind + "}"
+	case 34:
+		return ind + "go func() " + g.block(depth, ind) + "()"
+	case 35:
+		return ind + g.id() + s() + []string{"+=", "-=", "*=", "<<=", "&^=", "|="}[g.r.Intn(6)] + s() + g.expr(depth-1)
+	case 36:
+		return ind + g.id() + "--"
+	case 37:
+		return ind + "goto L"
+	case 38:
+		return ind + "{\n" + g.stmt(depth-1, ind+"\t") + "\n" + ind + "}"
 	}
-	return ind + "return"
+	return ind + []string{"return", "return " + g.atom(), "continue", "break"}[g.r.Intn(4)]
+}
+
+// chanType: channel types of every direction, nested n levels.
+func (g *srcGen) chanType(n int) string {
+	elem := "int"
+	if n > 1 {
+		elem = g.chanType(n - 1)
+	} else if g.r.Chance(30) {
+		elem = g.typ(1)
+	}
+	sp := []string{" ", "", "  "}[g.r.Intn(3)]
+	switch g.r.Intn(3) {
+	case 0:
+		return "chan " + elem
+	case 1:
+		return "<-" + sp + "chan " + elem
+	}
+	if strings.HasPrefix(elem, "<-") {
+		return "chan<- (" + elem + ")"
+	}
+	return "chan<-" + sp + elem
+}
+
+// typ: type expressions with their optional parts present and absent.
+func (g *srcGen) typ(depth int) string {
+	if depth <= 0 {
+		return []string{"int", "string", "T", "error", "pkg.T", "any"}[g.r.Intn(6)]
+	}
+	switch g.r.Intn(12) {
+	case 0:
+		return "[]" + g.typ(depth-1)
+	case 1:
+		return "[3]" + g.typ(depth-1)
+	case 2:
+		return "*" + g.typ(depth-1)
+	case 3:
+		return "map[" + g.typ(0) + "]" + g.typ(depth-1)
+	case 4:
+		return g.chanType(1 + g.r.Intn(3))
+	case 5:
+		return "func(" + g.typ(depth-1) + ")"
+	case 6:
+		return "func(a, b " + g.typ(depth-1) + ", c ..." + g.typ(0) + ") (x " + g.typ(depth-1) + ", err error)"
+	case 7:
+		return "func() " + g.typ(depth-1)
+	case 8:
+		return "struct {\n\ta, b " + g.typ(depth-1) + " `json:\"a\"`\n\t*T\n\tpkg.T\n\tc " + g.typ(depth-1) + " // c\n}"
+	case 9:
+		return "interface {\n\tM(x " + g.typ(depth-1) + ") " + g.typ(depth-1) + "\n\tN()\n\terror\n}"
+	case 10:
+		return "struct{}"
+	}
+	return g.typ(0)
+}
+
+// decl: top-level declarations with their optional parts present and absent.
+func (g *srcGen) decl() string {
+	s := g.sp
+	switch g.r.Intn(12) {
+	case 0:
+		return "import " + []string{`"os"`, `m "math"`, `. "strings"`, `_ "embed"`}[g.r.Intn(4)]
+	case 1:
+		return "import (\n\t\"os\"\n\tio \"io\" // c\n)"
+	case 2:
+		return "const (\n\tA" + s() + "= iota\n\tB\n\tC " + g.typ(0) + " = " + g.atom() + "\n)"
+	case 3:
+		return "var (\n\tx, y " + g.typ(1) + "\n\tz = " + g.expr(1) + "\n)"
+	case 4:
+		return "type (\n\tP " + g.typ(2) + "\n\tQ = " + g.typ(1) + "\n)"
+	case 5:
+		return "type S[T any, U comparable] " + g.typ(1)
+	case 6:
+		return "// doc\nfunc (r *T) M(a " + g.typ(1) + ", b ..." + g.typ(0) + ")" + s() + g.typ(1) + " " + g.block(2, "")
+	case 7:
+		return "func f(" + g.chanType(2) + ") (n int, err error) " + g.block(2, "")
+	case 8:
+		return "func ext(x int) int"
+	case 9:
+		return "func (T).mul = (\n\tmul1\n\t(T).mul2\n)"
+	case 10:
+		return "func (a T) + (b T) T " + g.block(1, "")
+	}
+	return "var " + g.id() + " " + g.typ(2) + " = " + g.expr(2)
 }
